@@ -116,7 +116,7 @@ macro_rules! fshard {
     ($name:ident, $unwind:expr, $f:ident $(, $arg:expr)*) => {
         #[kani::proof]
         #[kani::unwind($unwind)]
-        fn $name() {
+        pub(crate) fn $name() {
             $f::<$({ $arg }),*>()
         }
     };
@@ -138,7 +138,7 @@ mod fname_shards {
     fshard!(c17_non_ascii3_t2, 26, fname_non_ascii3, 14, 21);
     #[kani::proof]
     #[kani::unwind(32)]
-    fn c17_ascii24_q_mf() {
+    pub(crate) fn c17_ascii24_q_mf() {
         fname_ascii24::<0>();
         must_fail_witness();
     }
